@@ -153,7 +153,10 @@ var authParams = map[string]bool{
 	"X-Amz-SignedHeaders": true, "X-Amz-Signature": true,
 }
 
-func isAuthParam(p rawPair) bool { return authParams[p.k] }
+// isAuthParam: the presign parameters and any other X-Amz-* parameter the SDK hoists into
+// the query (e.g. X-Amz-Checksum-Mode); they are constant per shape and not part of the
+// modelled user parameters.
+func isAuthParam(p rawPair) bool { return authParams[p.k] || strings.HasPrefix(p.k, "X-Amz-") }
 
 // token form of a user pair as logged / mutated
 type tokPair struct {
